@@ -145,10 +145,11 @@ Print Assumptions modelled_algorithms_unchanged.
 
 (* sql_compat: whenever the emitter omits parentheses at a (parent, hole, child), the engine regroups to
    the same tree or to a rotation licensed by a law -- for EVERY triple of the dialect (all templates of the
-   dialect, the string and date functions included) outside the one known class left.
+   dialect, the string and date functions and process_concat = f-strings included) outside the two known classes.
    FULL STATEMENT (false):  bad_table d = [].
    known_triple d = F5: the child is a template that declares strength 100 over a top-level `*` or `/`
-   (div_i, math.log).
+   (div_i, math.log); C02-N7: the parent is an f-string (std.concat) and d has no CONCAT function, so that the parts,
+   which process_concat never parenthesises, sit next to `||` (sql.sqlite here; also redshift, glaredb).
    F2, F4, F30, C02-N2, C02-N3, C02-N6 and C02-N5 were repaired in /repo (bfc17a4, 5dd3d34, 5bac898, ac95a5d, e8f08a7,
    bb7bbd5) and are not excused. *)
 Theorem sql_compat_sqlite_partial : sql_compat d_sqlite = true.
@@ -166,7 +167,9 @@ Definition mem_triple (t : triple) (l : list triple) : bool :=
 Theorem sql_compat_refuted :
   mem_triple (k_mod, 1, k_div_i)%nat (bad_table d_sqlite) = true      (* F5  c % (a // b) -> c % ROUND(..) * SIGN(a) * SIGN(b) *)
   /\ mem_triple (k_mod, 1, k_div_i)%nat (bad_table d_generic) = true
-  /\ mem_triple (k_mul, 1, k_math_log)%nat (bad_table d_generic) = true.  (* F5  a * (math.log b c) -> a * LOG10(c) / LOG10(b) *)
+  /\ mem_triple (k_mul, 1, k_math_log)%nat (bad_table d_generic) = true   (* F5  a * (math.log b c) -> a * LOG10(c) / LOG10(b) *)
+  /\ mem_triple (k_concat, 0, k_add)%nat (bad_table d_sqlite) = true      (* C02-N7  d = b + c; f"{d}x" -> b + c || 'x' *)
+  /\ mem_triple (k_concat, 2, k_lt)%nat (bad_table d_sqlite) = true.
 Proof. vm_compute. repeat split; reflexivity. Qed.
 Print Assumptions sql_compat_refuted.
 
@@ -183,6 +186,16 @@ Print Assumptions like_templates_fine.
 Example ex_like_templates_are_constructs :
   forallb (fun d => forallb (fun n => existsb (fun p => leqb (fst p) n) (constructs d)) concat_pattern_templates) [d_sqlite; d_generic] = true.
 Proof. vm_compute. reflexivity. Qed.
+
+(* process_concat on a dialect WITH a CONCAT function is fine at every part (the parts are call arguments), and an
+   f-string as an OPERAND is fine in both dialects: the only bad triples that mention it have it as the parent, in
+   sql.sqlite.  FULL STATEMENT for sql.sqlite (false, C02-N7): the same without the dialect restriction. *)
+Theorem concat_fine_except_parts_next_to_bars :
+  forallb (fun t => negb (leqb (fst (fst t)) k_concat) && negb (leqb (snd t) k_concat)) (bad_table d_generic) &&
+  forallb (fun t => leqb (fst (fst t)) k_concat || negb (leqb (snd t) k_concat)) (bad_table d_sqlite) &&
+  dialect_has_concat d_generic && negb (dialect_has_concat d_sqlite) = true.
+Proof. vm_compute. reflexivity. Qed.
+Print Assumptions concat_fine_except_parts_next_to_bars.
 
 Theorem repaired_classes_are_fine :
   forallb (fun t => negb (mem_triple t (bad_table d_sqlite)) && negb (mem_triple t (bad_table d_generic)))
